@@ -13,6 +13,8 @@ ASSUMPTIONS = ["time items strictly increasing", "survival table in [0,1], non-i
 OUTSIDE = ["n beyond the bound", "IEEE rounding", "LAPACK internals"]
 BOUNDS = {"quick": dict(n=[3, 4], extra=["-", "r2"], grids=dsm.GRIDS, classes="idsm, sdsm manual, sdsm lapack", table="free symbolic (every lifetime model)"),
           "thorough": dict(n=[3, 4, 5, 6], extra=["-", "r2", "r2xp2"], grids=dsm.GRIDS, classes="as quick")}
+# dtype shadow: every shadowed configuration is run once more on integer-dtype arrays (differential concrete run)
+DTYPE_SHADOW = lambda cfg: cfg["h"] == "cohorts"
 OPTS = {"quick": dict(shadow_every=3, timeout_ms=20000), "thorough": dict(shadow_every=5, timeout_ms=120000)}
 KINDS = ["idsm", "sdsm_manual", "sdsm_lapack"]
 
